@@ -36,6 +36,12 @@ func all(condition, data any) (bool, error) {
 	case []immutable.Option[float64]:
 		return allSlice(condition, t)
 
+	case []float32:
+		return allSlice(condition, t)
+
+	case []immutable.Option[float32]:
+		return allSlice(condition, t)
+
 	default:
 		return false, nil
 	}
